@@ -237,6 +237,9 @@ func (vlog *valueLog) rewrite(f *logFile) error {
 		// an older vlog file. See the comments in the else part.
 		if vp.Fid == f.fid && vp.Offset == e.offset {
 			moved++
+			if vhook.On {
+				vhook.EventKV("gc.moved", y.ParseKey(e.Key), nil, y.ParseTs(e.Key), uint64(f.fid))
+			}
 			// This new entry only contains the key, and a pointer to the value.
 			ne := new(Entry)
 			// Remove only the bitValuePointer and transaction markers. We
